@@ -171,7 +171,8 @@ def check_class(ck, prop, ci):
         if m.name == "__init__":
             continue
         for x in walk_local(m.node):
-            if isinstance(x, ast.Attribute) and isinstance(x.ctx, ast.Load) and isinstance(x.value, ast.Name) and x.value.id == "self" and not x.attr.startswith("__"):
+            if isinstance(x, ast.Attribute) and isinstance(x.ctx, ast.Load) and isinstance(x.value, ast.Name) and x.value.id == "self" and not x.attr.startswith("__") \
+                    and not getattr(x, "_optional_read", False):        # getattr(self, "a", default): a read that tolerates absence
                 reads.setdefault(x.attr, (m, x))
     n = 0
     for a, (m, x) in sorted(reads.items()):
@@ -317,6 +318,84 @@ def check_derived_state(ck, prop, ci):
         if not readers:
             continue
         family = {c.name for c in repo.mro(ci)} | {c.name for c in repo.subclasses(ci.name)}
+        # a method of this class that brings X up to date does so for every object of the class; an override in a subclass must not
+        # silently drop that: (a) where the overridden method refreshes X without itself changing what X is computed from (a hook
+        # called at the moment the sources may have changed), the override has to refresh X on every normally ending path; (b) where the
+        # refresh follows a change of the sources inside the method, the override has to refresh X after every such change it makes
+        writers_x = {m.name for m, _, _ in sts if m.name not in ("__init__", "_from_dict", "_from_dict_helper", "_to_dict")}
+
+        def source_mutations(fl_):
+            """cfg nodes with a method call on an element of a source collection (self.d[k].m(..), or x.m(..) for x ranging over self.d)"""
+            out = []
+            for nd in fl_.cfg.nodes:
+                for e in fl_.cfg.node_exprs(nd):
+                    for c_ in [e] + list(walk_local(e)):
+                        if not (isinstance(c_, ast.Call) and isinstance(c_.func, ast.Attribute)):
+                            continue
+                        recv = c_.func.value
+                        if isinstance(recv, ast.Call) and isinstance(recv.func, ast.Name) and recv.func.id == "super":
+                            continue
+                        try:
+                            rx = " ".join(ast.unparse(fl_.expand(recv, nd)).split())
+                        except Exception:
+                            continue
+                        for d_ in deps:
+                            if (rx.startswith(f"self.{d_}[") or rx.startswith(f"__elem__(self.{d_}") or rx.startswith(f"self.{d_}.get(")) and \
+                                    c_.func.attr not in ("values", "keys", "items", "get", "copy", "index", "count"):
+                                out.append(nd)
+            return out
+
+        def refresh_nodes(fl_, mname_, fam):
+            out = {nd for nd, k2, p2, t2 in state_writes(fl_) if p2 == f"self.{X}"}
+            for nd in fl_.cfg.nodes:
+                for e in fl_.cfg.node_exprs(nd):
+                    for c_ in [e] + list(walk_local(e)):
+                        if isinstance(c_, ast.Call) and isinstance(c_.func, ast.Attribute):
+                            v_ = c_.func.value
+                            sup = isinstance(v_, ast.Call) and isinstance(v_.func, ast.Name) and v_.func.id == "super"
+                            if c_.func.attr == mname_ and (sup or (isinstance(v_, ast.Name) and v_.id in fam)):
+                                out.add(nd)
+                            elif c_.func.attr in uncond and (sup or (isinstance(v_, ast.Name) and v_.id == "self")) and c_.func.attr != mname_:
+                                out.add(nd)
+            return out
+        uncond = set()
+        base_kind = {}
+        for mname in sorted(writers_x):
+            try:
+                bfl = flow_of(ci.methods[mname])
+            except Exception:
+                continue
+            rn = {nd for nd, k2, p2, t2 in state_writes(bfl) if p2 == f"self.{X}"}
+            if bfl.cfg.exit not in bfl.cfg.reach(bfl.cfg.entry, avoid=rn | {bfl.cfg.raise_exit}):
+                uncond.add(mname)
+            base_kind[mname] = "mutation" if source_mutations(bfl) else "hook"
+        for sub in repo.subclasses(ci.name):
+            if "/tests/" in sub.module:
+                continue
+            for mname in sorted(writers_x):
+                ov = sub.methods.get(mname)
+                if ov is None or mname not in base_kind or ov.node is ci.methods[mname].node:
+                    continue
+                n += 1
+                try:
+                    ofl = flow_of(ov)
+                except Exception:
+                    continue
+                refresh = refresh_nodes(ofl, mname, family)
+                if base_kind[mname] == "hook" and mname in uncond:
+                    bad_ = ofl.cfg.exit in ofl.cfg.reach(ofl.cfg.entry, avoid=refresh | {ofl.cfg.raise_exit})
+                    what_ = "can finish without calling it and without writing"
+                else:
+                    muts = source_mutations(ofl)
+                    bad_ = any(ofl.cfg.exit in ofl.cfg.reach(w, avoid=refresh | {ofl.cfg.raise_exit}) and w not in refresh for w in muts)
+                    what_ = f"changes an element of {sorted(deps)} and can then finish without calling it and without writing"
+                if bad_:
+                    ck.violation(f"{prop}.G5", ov, ov.node.body[-1] if ov.node.body else ov.node,
+                                 f"{ci.name}.{mname} brings `{X}` (new, derived state computed from {sorted(deps)}) up to date, but the override {ov.qual} {what_} `{X}`: "
+                                 f"on {sub.name} objects `{X}` keeps a value that belongs to an earlier state (read by {readers[0].qual})",
+                                 sink=f"{ci.name}.{X}:override-drops-refresh:{ov.qual}", positive=True)
+                else:
+                    ck.holds(f"{prop}.G5", ov, ov.qual, f"override keeps the refresh of `{X}`")
         for d in sorted(deps):
             for f, kind, path, t in who_writes(repo, d):
                 if f.cls is None or f.cls.name not in family or "/tests/" in f.module or path not in (f"self.{d}", f"out_obj.{d}"):
@@ -341,6 +420,241 @@ def check_derived_state(ck, prop, ci):
     return n
 
 
+# ---------------------------------------------------------------------------------------------------------------------------------
+# G6  truthiness discipline: a quantity for which 0 is a value is never tested by truthiness where "absent" (None) is meant
+# ---------------------------------------------------------------------------------------------------------------------------------
+_ARITH = (ast.Sub, ast.Mult, ast.Div, ast.FloorDiv, ast.Mod, ast.Pow)
+_ORDER = (ast.Lt, ast.LtE, ast.Gt, ast.GtE)
+_NUM_CALLS = {"abs", "float", "int", "round", "min", "max", "sum", "len", "floor", "ceil", "sqrt", "exp", "log", "maximum", "minimum", "clip"}
+_BOOL_CALLS = {"isinstance", "bool", "any", "all", "isclose", "allclose", "empty", "is_feasible", "hasattr", "callable", "issubclass", "startswith", "endswith"}
+
+
+def _is_num_const(e):
+    return isinstance(e, ast.Constant) and isinstance(e.value, (int, float)) and not isinstance(e.value, bool) or \
+        (isinstance(e, ast.UnaryOp) and isinstance(e.op, (ast.USub, ast.UAdd)) and _is_num_const(e.operand)) or \
+        (isinstance(e, ast.Call) and isinstance(e.func, ast.Name) and e.func.id == "float" and len(e.args) == 1 and isinstance(e.args[0], ast.Constant))
+
+
+def _attr_facts(repo):
+    """package-wide facts about attribute names: {"num": stored a number / arithmetic or used as an arithmetic / ordering operand,
+    "none": stored None (or from a parameter whose default is None), "bool": stored a truth value}"""
+    cached = getattr(repo, "_attr_facts_cache", None)
+    if cached is not None:
+        return cached
+    num, none, boo = set(), set(), set()
+    for rel, tree in repo.trees.items():
+        if "/tests/" in rel:
+            continue
+        for fn in [x for x in ast.walk(tree) if isinstance(x, (ast.FunctionDef, ast.AsyncFunctionDef))] + [tree]:
+            none_params = set()
+            if not isinstance(fn, ast.Module):
+                a = fn.args
+                pos = a.posonlyargs + a.args
+                for p, d in list(zip(pos[len(pos) - len(a.defaults):], a.defaults)) + [(p, d) for p, d in zip(a.kwonlyargs, a.kw_defaults) if d is not None]:
+                    if isinstance(d, ast.Constant) and d.value is None:
+                        none_params.add(p.arg)
+            for x in (walk_local(fn) if not isinstance(fn, ast.Module) else ast.walk(fn)):
+                if isinstance(x, ast.Assign) and len(x.targets) >= 1:
+                    for t in x.targets:
+                        if isinstance(t, ast.Attribute):
+                            v = x.value
+                            if _is_num_const(v) or (isinstance(v, ast.BinOp) and isinstance(v.op, _ARITH)):
+                                num.add(t.attr)
+                            if isinstance(v, ast.Constant) and v.value is None:
+                                none.add(t.attr)
+                            if isinstance(v, ast.Name) and v.id in none_params:
+                                none.add(t.attr)
+                            if isinstance(v, ast.Constant) and isinstance(v.value, bool) or isinstance(v, ast.Compare) \
+                                    or (isinstance(v, ast.UnaryOp) and isinstance(v.op, ast.Not)) \
+                                    or (isinstance(v, ast.BoolOp) and all(isinstance(o, ast.Compare) or (isinstance(o, ast.UnaryOp) and isinstance(o.op, ast.Not)) for o in v.values)):
+                                boo.add(t.attr)
+                            num_params = {p.arg for p, d in (list(zip(pos[len(pos) - len(a.defaults):], a.defaults)) if not isinstance(fn, ast.Module) else []) if _is_num_const(d)}
+                            if isinstance(v, ast.Name) and v.id in num_params:
+                                num.add(t.attr)
+                elif isinstance(x, ast.AugAssign) and isinstance(x.target, ast.Attribute) and isinstance(x.op, (ast.Add,) + _ARITH) and \
+                        (_is_num_const(x.value) or isinstance(x.op, _ARITH)):
+                    num.add(x.target.attr)
+                elif isinstance(x, ast.BinOp) and isinstance(x.op, _ARITH):
+                    for o in (x.left, x.right):
+                        if isinstance(o, ast.Attribute):
+                            num.add(o.attr)
+                elif isinstance(x, ast.Compare) and any(isinstance(op, _ORDER) for op in x.ops):
+                    for o in [x.left] + list(x.comparators):
+                        if isinstance(o, ast.Attribute):
+                            num.add(o.attr)
+        for c in [x for x in ast.walk(tree) if isinstance(x, ast.ClassDef)]:
+            for st in c.body:
+                if isinstance(st, ast.Assign) and len(st.targets) == 1 and isinstance(st.targets[0], ast.Name):
+                    if _is_num_const(st.value):
+                        num.add(st.targets[0].id)
+                    elif isinstance(st.value, ast.Constant) and st.value.value is None:
+                        none.add(st.targets[0].id)
+                    elif isinstance(st.value, ast.Constant) and isinstance(st.value.value, bool):
+                        boo.add(st.targets[0].id)
+    repo._attr_facts_cache = {"num": num, "none": none, "bool": boo}
+    return repo._attr_facts_cache
+
+
+def check_truthiness(ck, prop, f):
+    """G6: `x or default`, `if not x`, `a if x else b` applied to a number that may also be None treats the value 0 as "not given".
+    Reported only on positive evidence of both: the operand is a quantity (a numeric default, arithmetic / ordering use, a numeric
+    attribute) and it can be None (a None default, `.get(key)`, an attribute some store sets to None) - or, for `x or d` in value
+    position, the replacement `d` is a non-zero number.  Truth-valued operands (flags, comparisons) and everything without that evidence
+    are not judged."""
+    repo = ck.repo
+    facts = _attr_facts(repo)
+    fn = f.node
+    a = fn.args
+    pos = a.posonlyargs + a.args
+    defaults = dict(list(zip([p.arg for p in pos[len(pos) - len(a.defaults):]], a.defaults)) + [(p.arg, d) for p, d in zip(a.kwonlyargs, a.kw_defaults) if d is not None])
+    params = {x.arg for x in pos + a.kwonlyargs}
+    parent = {}
+    for p in walk_local(fn):
+        for c in ast.iter_child_nodes(p):
+            parent[c] = p
+    for c in ast.iter_child_nodes(fn):
+        parent[c] = fn
+    stores = {}          # local name -> value expressions assigned to it
+    for x in walk_local(fn):
+        if isinstance(x, ast.Assign):
+            for t in x.targets:
+                if isinstance(t, ast.Name):
+                    stores.setdefault(t.id, []).append(x.value)
+        elif isinstance(x, ast.AugAssign) and isinstance(x.target, ast.Name):
+            stores.setdefault(x.target.id, []).append(ast.BinOp(left=x.target, op=x.op, right=x.value))
+
+    def key_of(e):
+        return " ".join(ast.unparse(e).split())
+
+    def num_use(e):
+        k = key_of(e)
+        for x in walk_local(fn):
+            if isinstance(x, ast.BinOp) and (isinstance(x.op, _ARITH) or (isinstance(x.op, ast.Add) and (_is_num_const(x.left) or _is_num_const(x.right)))):
+                if key_of(x.left) == k or key_of(x.right) == k:
+                    return True
+            elif isinstance(x, ast.Compare) and any(isinstance(op, _ORDER) for op in x.ops):
+                if any(key_of(o) == k for o in [x.left] + list(x.comparators)):
+                    return True
+            elif isinstance(x, ast.UnaryOp) and isinstance(x.op, ast.USub) and key_of(x.operand) == k:
+                return True
+            elif isinstance(x, ast.Call) and (getattr(x.func, "id", None) or getattr(x.func, "attr", None)) in _NUM_CALLS and any(key_of(y) == k for y in x.args) \
+                    and (getattr(x.func, "id", None) or getattr(x.func, "attr", None)) not in ("len", "sum", "min", "max"):
+                return True
+        return False
+
+    def numeric(e, depth=2):
+        if _is_num_const(e):
+            return True
+        if isinstance(e, ast.IfExp):
+            return numeric(e.body, depth) or numeric(e.orelse, depth)
+        if isinstance(e, ast.BinOp) and isinstance(e.op, _ARITH):
+            return True
+        if isinstance(e, ast.Name):
+            d = defaults.get(e.id)
+            if d is not None and _is_num_const(d):
+                return True
+            if num_use(e):
+                return True
+            if depth > 0 and any(numeric(v, depth - 1) for v in stores.get(e.id, []) if not (isinstance(v, ast.BoolOp) or isinstance(v, ast.IfExp))):
+                return True
+            if depth > 0 and any(isinstance(v, ast.BoolOp) and any(numeric(o, depth - 1) for o in v.values) for v in stores.get(e.id, [])):
+                return False
+            # stored into a numeric attribute: self._x = name
+            for x in walk_local(fn):
+                if isinstance(x, ast.Assign) and isinstance(x.value, ast.Name) and x.value.id == e.id and any(isinstance(t, ast.Attribute) and t.attr in facts["num"] for t in x.targets):
+                    return True
+            return False
+        if isinstance(e, ast.Attribute):
+            return (e.attr in facts["num"] and e.attr not in facts["bool"]) or num_use(e)
+        if isinstance(e, ast.Call) and isinstance(e.func, ast.Attribute) and e.func.attr == "get" and e.args and isinstance(e.args[0], ast.Constant) \
+                and isinstance(e.args[0].value, str):
+            k = e.args[0].value
+            return (k in facts["num"] or k.lstrip("_") in facts["num"] or "_" + k in facts["num"]) and k not in facts["bool"]
+        if isinstance(e, ast.Subscript) and isinstance(e.slice, ast.Constant) and isinstance(e.slice.value, str):
+            k = e.slice.value
+            return (k in facts["num"] or "_" + k in facts["num"]) and k not in facts["bool"]
+        return False
+
+    def truth_valued(e, _depth=3):
+        if isinstance(e, ast.Compare) or (isinstance(e, ast.UnaryOp) and isinstance(e.op, ast.Not)):
+            return True
+        if isinstance(e, ast.BoolOp):
+            return _depth > 0 and all(truth_valued(o, _depth - 1) for o in e.values if not (isinstance(o, ast.Name) and False))
+        if isinstance(e, ast.Constant) and isinstance(e.value, bool):
+            return True
+        if isinstance(e, ast.Call):
+            nm = getattr(e.func, "id", None) or getattr(e.func, "attr", None)
+            return nm in _BOOL_CALLS
+        if isinstance(e, ast.Name):
+            d = defaults.get(e.id)
+            if d is not None and isinstance(d, ast.Constant) and isinstance(d.value, bool):
+                return True
+            vs = stores.get(e.id, [])
+            return _depth > 0 and bool(vs) and all(truth_valued(v, _depth - 1) for v in vs)
+        if isinstance(e, ast.Attribute):
+            return e.attr in facts["bool"] and e.attr not in facts["num"]
+        return False
+
+    def noneable(e):
+        if isinstance(e, ast.IfExp):
+            return any((isinstance(b, ast.Constant) and b.value is None) or noneable(b) for b in (e.body, e.orelse))
+        if isinstance(e, ast.Name):
+            d = defaults.get(e.id)
+            if d is not None and isinstance(d, ast.Constant) and d.value is None:
+                return True
+            return any((isinstance(v, ast.Constant) and v.value is None) or noneable(v) for v in stores.get(e.id, []) if not isinstance(v, ast.Name))
+        if isinstance(e, ast.Attribute):
+            return e.attr in facts["none"]
+        if isinstance(e, ast.Call) and isinstance(e.func, ast.Attribute) and e.func.attr == "get" and (len(e.args) == 1 or (len(e.args) == 2 and isinstance(e.args[1], ast.Constant) and e.args[1].value is None)):
+            return True
+        return False
+
+    def atoms(t):
+        out, todo = [], [t]
+        while todo:
+            e = todo.pop()
+            if isinstance(e, ast.BoolOp):
+                todo += e.values
+            elif isinstance(e, ast.UnaryOp) and isinstance(e.op, ast.Not):
+                todo.append(e.operand)
+            else:
+                out.append(e)
+        return out
+    n = 0
+    seen = set()
+    for x in walk_local(fn):
+        sites = []       # (atom, replacement or None, what)
+        if isinstance(x, (ast.If, ast.While, ast.IfExp)):
+            sites += [(at, None, "test") for at in atoms(x.test)]
+        elif isinstance(x, ast.comprehension):
+            sites += [(at, None, "filter") for c in x.ifs for at in atoms(c)]
+        elif isinstance(x, ast.BoolOp):
+            par = parent.get(x)
+            in_test = isinstance(par, (ast.BoolOp,)) or (isinstance(par, ast.UnaryOp) and isinstance(par.op, ast.Not)) or \
+                (isinstance(par, (ast.If, ast.While, ast.IfExp, ast.Assert)) and par.test is x) or (isinstance(par, ast.comprehension) and x in par.ifs)
+            if not in_test and isinstance(x.op, ast.Or):
+                for i, v in enumerate(x.values[:-1]):
+                    sites += [(at, x.values[-1], "default") for at in atoms(v)]
+        for at, repl, what in sites:
+            if id(at) in seen or truth_valued(at):
+                continue
+            seen.add(id(at))
+            if not isinstance(at, (ast.Name, ast.Attribute, ast.Call, ast.Subscript, ast.IfExp)):
+                continue
+            n += 1
+            isnum = numeric(at) or (repl is not None and not truth_valued(repl) and numeric(repl))
+            if not isnum:
+                continue
+            why = None
+            if noneable(at):
+                why = "it can be None (not given) and it can be 0 (a value): truthiness does not tell them apart"
+            elif what == "default" and repl is not None and _is_num_const(repl) and not (isinstance(repl, ast.Constant) and repl.value == 0):
+                why = f"the value 0 is silently replaced by {key_of(repl)}"
+            if why:
+                ck.violation(f"{prop}.G6", f, at, f"`{key_of(at)[:50]}` is a quantity tested by truthiness ({what}): {why}", sink=f"truthiness:{key_of(at)[:40]}", positive=True)
+    return n
+
+
 def run(ck, prop, analysed):
     """analysed: {qualified name: module} of the functions the property's rules built flow graphs for"""
     repo = ck.repo
@@ -350,6 +664,20 @@ def run(ck, prop, analysed):
             n += 1
             check_function(ck, prop, f)
     ck.count("functions under the generic well-formedness rules", n)
+    # G6 looks at every method of the classes the rules touched as well (constructors, restore helpers: the collaborators a quantity
+    # passes through before the anchored code reads it)
+    scope6 = {}
+    for q, mod in analysed.items():
+        for f in [x for x in repo.funcs.get(q, []) if x.module == mod][:1]:
+            scope6[(f.qual, f.module)] = f
+            if f.cls is not None and "/tests/" not in f.cls.module:
+                for c in repo.mro(f.cls):
+                    for m_ in list(c.methods.values()) + list(c.setters.values()):
+                        scope6[(m_.qual, m_.module)] = m_
+    k6 = 0
+    for key in sorted(scope6):
+        k6 += check_truthiness(ck, prop, scope6[key])
+    ck.count("truthiness tests on non-boolean operands under the quantity rule", k6)
     classes = {}
     for q, mod in analysed.items():
         for f in [x for x in repo.funcs.get(q, []) if x.module == mod][:1]:
